@@ -6,6 +6,13 @@ From C33 Require Import C24.Model C24.ProofsSpec C24.SkipModel C24.SkipLemmas C2
 Import ListNotations.
 Local Open Scope nat_scope.
 
+Ltac bc :=
+  repeat match goal with
+  | |- context [?a <=? ?b] => destruct (Nat.leb_spec a b)
+  | |- context [?a <? ?b] => destruct (Nat.ltb_spec a b)
+  | |- context [?a =? ?b] => destruct (Nat.eqb_spec a b)
+  end; cbn [andb]; try reflexivity; try lia; try congruence.
+
 Definition is_ptr (o : option (option nat)) (y : nat) : bool :=
   match o with Some (Some z) => z =? y | _ => false end.
 
@@ -36,7 +43,9 @@ Section D.
                       then nxt h y i else nxt h z i).
   Proof.
     induction n as [|n IH]; intros k h HU.
-    - exists h. simpl. repeat split; auto. intros z i. bool_cases.
+    - exists h. cbn [seq map unlink]. repeat split; auto. intros z i.
+      destruct (Nat.leb_spec k i); destruct (Nat.ltb_spec i (k + 0)); cbn [andb];
+        try reflexivity; lia.
     - cbn [seq map unlink].
       destruct (HU k) as (Hk1 & Hk2 & Hk3); [lia|].
       destruct (nxt_some h (U k) k Hk2) as [o Eo]. rewrite Eo.
@@ -59,12 +68,20 @@ Section D.
           rewrite height_set_next, prev_set_next, score_set_next, val_set_next. auto.
         * intros z i. rewrite (Hn z i). unfold h2.
           rewrite !nxt_set_next_if by exact Hk2.
-          destruct (Nat.eqb_spec y (U k)); [congruence|]. simpl.
-          destruct (Nat.eqb_spec z (U k)) as [->|Nz]; simpl.
-          -- destruct (Nat.eqb_spec i k) as [->|Ni]; simpl.
-             ++ rewrite Eo. simpl. rewrite Nat.eqb_refl. bool_cases.
-             ++ bool_cases.
-          -- bool_cases.
+          replace (y =? U k) with false by (symmetry; apply Nat.eqb_neq; congruence).
+          cbn [andb].
+          destruct (Nat.eqb_spec z (U k)) as [->|Nz]; cbn [andb].
+          -- destruct (Nat.eqb_spec i k) as [->|Ni]; cbn [andb].
+             ++ rewrite Eo.
+                replace (S k <=? k) with false by (symmetry; apply Nat.leb_gt; lia).
+                replace (k <? k + S n) with true by (symmetry; apply Nat.ltb_lt; lia).
+                rewrite Nat.leb_refl, Nat.eqb_refl. cbn [andb is_ptr]. rewrite Nat.eqb_refl.
+                symmetry. exact Eny.
+             ++ bc.
+          -- destruct (Nat.eqb_spec i k) as [->|Ni]; cbn [andb].
+             ++ replace (U k =? z) with false by (symmetry; apply Nat.eqb_neq; congruence).
+                now rewrite !andb_false_r.
+             ++ bc.
       + assert (Eu : match o with
                      | Some z => if z =? y then match nxt h y k with
                                                 | Some ny => unlink (set_next h (U k) k ny) y (map U (seq (S k) n)) (S k)
@@ -80,9 +97,10 @@ Section D.
         intros z i. rewrite (Hn z i).
         destruct (Nat.eqb_spec i k) as [->|Ni].
         * destruct (Nat.eqb_spec (U k) z) as [<-|Nz].
-          -- rewrite Eo, Ep. bool_cases.
-          -- bool_cases.
-        * bool_cases.
+          -- rewrite Eo, Ep. rewrite !andb_false_r.
+             replace (S k <=? k) with false by (symmetry; apply Nat.leb_gt; lia). reflexivity.
+          -- now rewrite !andb_false_r.
+        * bc.
   Qed.
 
   (** ** the level shrinking *)
@@ -177,7 +195,8 @@ Section D.
     Proof.
       simpl. destruct (succ_at h i post') as [w|] eqn:E; auto.
       apply Nat.eqb_neq. intros ->. apply succ_at_some in E as [Hin _].
-      pose proof d_nodup as Hnd. inversion Hnd as [|? ? _ Hnd']; subst.
+      pose proof d_nodup as Hnd.
+      assert (Hnd' : NoDup (pre ++ y :: post')) by (inversion Hnd; assumption).
       apply NoDup_remove_2 in Hnd'. apply Hnd'. apply in_or_app. now right.
     Qed.
 
@@ -225,7 +244,8 @@ Section D.
 
     Lemma del_prev : prevs_ok h' (pre ++ post').
     Proof.
-      pose proof d_nodup as Hnd. inversion Hnd as [|? ? _ Hnd']; subst.
+      pose proof d_nodup as Hnd.
+      assert (Hnd' : NoDup (pre ++ y :: post')) by (inversion Hnd; assumption).
       pose proof (i_prev _ _ HI) as Hold. fold h in Hold. rewrite <- Hpp in Hold.
       intros q1 p q2 E. rewrite Hpv.
       destruct (split2 _ _ _ _ _ E) as [(a2 & Ea & ->)|(b1 & Eb & ->)].
